@@ -20,7 +20,7 @@ fn expand(roots: &[C], lead: C) -> Vec<C> {
     }
     c
 }
-const GENS: [&str; 7] = ["equally-spaced-reals", "conjugate-pairs-on-two-circles", "x^n-c", "mixed-real-complex", "cluster-at-separation-limit", "non-conjugate-spiral", "sparse-shifted"];
+const GENS: [&str; 8] = ["equally-spaced-reals", "conjugate-pairs-on-two-circles", "x^n-c", "mixed-real-complex", "cluster-at-separation-limit", "non-conjugate-spiral", "sparse-shifted", "origin-plus-others"];
 /// root configuration: (roots, needs complex coefficients)
 fn config(gen: usize, n: usize, var: usize) -> Option<(Vec<C>, bool)> {
     let c = |a: f64, b: f64| C::new(a, b);
@@ -115,6 +115,36 @@ fn config(gen: usize, n: usize, var: usize) -> Option<(Vec<C>, bool)> {
                 r.push(c(rad * th.cos(), rad * th.sin()));
             }
         }
+        7 => {
+            // a root exactly at the origin (the constant coefficient is exactly 0) plus n-1 others: all negative reals,
+            // all positive reals, conjugate pairs on a circle (and a real root), or a complex spiral
+            if var >= 4 {
+                return None;
+            }
+            r.push(c(0.0, 0.0));
+            let m = n - 1;
+            match var {
+                0 => (0..m).for_each(|k| r.push(c(-0.4 - 0.3 * k as f64, 0.0))),
+                1 => (0..m).for_each(|k| r.push(c(0.45 + 0.31 * k as f64, 0.0))),
+                2 => {
+                    for k in 0..m / 2 {
+                        let th = 0.4 + 2.3 * (k as f64 + 0.5) / (m as f64 / 2.0 + 0.5);
+                        r.push(c(1.6 * th.cos(), 1.6 * th.sin()));
+                        r.push(c(1.6 * th.cos(), -1.6 * th.sin()));
+                    }
+                    if m % 2 == 1 {
+                        r.push(c(-2.5, 0.0));
+                    }
+                }
+                _ => {
+                    complex = m > 0;
+                    for k in 0..m {
+                        let (rad, th) = (0.6 + 0.25 * k as f64, 0.7 + 1.1 * k as f64);
+                        r.push(c(rad * th.cos(), rad * th.sin()));
+                    }
+                }
+            }
+        }
         _ => {
             // (x - a)^n - b: sparse after the shift, all derivatives up to n-1 vanish at x = a
             let a = [0.0, 0.6, -1.1][var % 3];
@@ -205,7 +235,7 @@ impl Check for PolyRoots {
         for gen in 0..GENS.len() {
             for n in 1..=10 {
                 for var in 0..9 {
-                    if t == Tier::Quick && var >= 3 && !(gen == 2 && (4..=6).contains(&var)) {
+                    if t == Tier::Quick && var >= 3 && !(gen == 2 && (4..=6).contains(&var)) && !(gen == 7 && var == 3) {
                         continue;
                     }
                     if config(gen, n, var).is_none() {
